@@ -626,3 +626,49 @@ class EscapesFresh(ReturnsFresh):
                                  reason='the object stored in self.%s (and handed to the caller) is not allocated in this call on every '
                                         'path: a later call would update the object an earlier call returned' % t.attr))
         super().stmt(s, obj, elems)
+
+
+def identity_comparisons(rel, qual):
+    """`a is b` / `a is not b` between two values (neither a None / True / False literal) is only the equality the algorithm means
+    when both names range over the SAME container expression (then equal elements are identical objects); attribute names that come
+    from different containers (the domain and a clique tuple) may be equal strings without being the same object.
+    One obligation per such comparison: both operands are loop / comprehension variables over textually the same iterable."""
+    fn, _, sha = frontend.get_function(rel, qual)
+    parent = {}
+    for n in ast.walk(fn):
+        for c in ast.iter_child_nodes(n):
+            parent[id(c)] = n
+
+    def source(name, node):
+        """iterable of the innermost enclosing loop / comprehension generator that binds `name` at `node`"""
+        cur = node
+        while id(cur) in parent:
+            cur = parent[id(cur)]
+            if isinstance(cur, ast.For) and isinstance(cur.target, ast.Name) and cur.target.id == name:
+                return ast.unparse(cur.iter)
+            if isinstance(cur, (ast.ListComp, ast.SetComp, ast.GeneratorExp, ast.DictComp)):
+                for g in cur.generators:
+                    if isinstance(g.target, ast.Name) and g.target.id == name:
+                        return ast.unparse(g.iter)
+        return None
+    obs = []
+    for n in ast.walk(fn):
+        if isinstance(n, ast.Compare) and len(n.ops) == 1 and isinstance(n.ops[0], (ast.Is, ast.IsNot)):
+            l, r = n.left, n.comparators[0]
+            if any(isinstance(x, ast.Constant) and x.value in (None, True, False) for x in (l, r)):
+                continue
+            if any(isinstance(x, ast.Name) and x.id in ('list', 'tuple', 'str', 'int', 'dict', 'set', 'float') for x in (l, r)):
+                continue            # type(x) is list
+            sl = source(l.id, n) if isinstance(l, ast.Name) else None
+            sr = source(r.id, n) if isinstance(r, ast.Name) else None
+            ok = sl is not None and sl == sr
+            o = Obligation('%s::%s/identity-comparison#%s@L%d' % (rel, qual, ast.unparse(n).replace(' ', '_'), n.lineno), [], None,
+                           function='%s::%s' % (rel, qual), kind='frame')
+            o.verdict = 'discharged' if ok else 'refuted'
+            o.backend = 'binding-source analysis (pv/vc/frames.py)'
+            o.model = {} if ok else dict(comparison=ast.unparse(n), line=n.lineno,
+                                         left_ranges_over=sl, right_ranges_over=sr,
+                                         reason='identity of two values that are not elements of the same container: equal attribute names need not be the same object')
+            o.meta = {'base': '%s::%s/identity-comparison#%s' % (rel, qual, ast.unparse(n).replace(' ', '_'))}
+            obs.append(o)
+    return obs, sha
